@@ -68,6 +68,14 @@ def pairsB : List Bytes → List (Bytes × Bytes)
 def mapOfPairs (ps : List (Bytes × Bytes)) : List (Bytes × Bytes) :=
   ps.foldl (fun (m : AList Bytes) (k, v) => AList.set m k v) []
 
+/-- `<member>:<longitude bits>:<latitude bits>` tokens of the GeoAdd family -/
+def geoItems (items : List Grp) : Option (List (Bytes × F64)) :=
+  items.mapM fun g => match g with
+    | .one t => (match t.splitOn ":" with
+      | [m, lo, la] => do pure ((← parseArg m), Handler4.geoScore (← hexToU64 lo) (← hexToU64 la))
+      | _ => none)
+    | _ => none
+
 open Api in
 def callApi (s : MState) (now : Int) (method : String) (gs : List Grp) (choice : Option (List Bytes)) : Option (MState × Out) :=
   match method, gs with
@@ -167,12 +175,11 @@ def callApi (s : MState) (now : Int) (method : String) (gs : List Grp) (choice :
   | "SMove", [a, b, m] => do pure (smove s now (← gB a) (← gB b) (← gB m))
   -- sorted sets
   | "GeoAdd", k :: items => do
-    let its ← items.mapM fun g => match g with
-      | .one t => (match t.splitOn ":" with
-        | [m, lo, la] => do pure ((← parseArg m), Handler4.geoScore (← hexToU64 lo) (← hexToU64 la))
-        | _ => none)
-      | _ => none
-    pure (Handler4.geoAdd s now (← gB k) its)
+    pure (Handler4.geoAdd s now (← gB k) (← geoItems items))
+  | "GeoAddNX", k :: items => do
+    pure (Handler4.geoAddNX s now (← gB k) (← geoItems items))
+  | "GeoAddXX", k :: items => do
+    pure (Handler4.geoAddXX s now (← gB k) (← geoItems items))
   | "ZAdd", [k, m, f] => do pure (zadd s now (← gB k) (← gB m) (← gF f))
   | "ZAddXX", [k, m, f] => do pure (zaddXX s now (← gB k) (← gB m) (← gF f))
   | "ZAddNX", [k, m, f] => do pure (zaddNX s now (← gB k) (← gB m) (← gF f))
